@@ -178,6 +178,20 @@ class ModelDoc:
     def lines(self):
         return [r.text() for r in self.recs]
 
+    def add(self, rec):
+        """Append a record; a further O/U line with the identifier of an existing group of
+        the same kind continues that group (documented: items appended, tags united).
+        Returns the record that now represents the line."""
+        if rec.rt in ("O", "U") and rec.pos[0] != "*":
+            for r in self.recs:
+                if r.rt == rec.rt and r.pos[0] == rec.pos[0]:
+                    r.pos[1] = r.pos[1] + " " + rec.pos[1]
+                    have = set(t[0] for t in r.tags)
+                    r.tags = list(r.tags) + [t for t in rec.tags if t[0] not in have]
+                    return r
+        self.recs.append(rec)
+        return rec
+
     # ---- namespace
     def names(self):
         return [n for n in (name_of(r) for r in self.recs) if n is not None]
